@@ -55,13 +55,11 @@ theorem ArrOk.insert_total (hT : legalThreshold T = true) {a : Arr} {c : Ctx} (h
   · obtain ⟨a2, c2, heq, _⟩ := arrInl_insert hT (h.2 hinl) hv (hroom hinl) hcount hi
     exact ⟨a2, c2, heq⟩
 
-/-- `Arr.insert` on a full array: the model's answer (Go: `NewArrayIsFullError`… the model files it
-    under `AErr`) -/
+/-- `Arr.insert` on a full array: `ArrayElementCannotExceedMaxElementCountError`, whatever the index -/
 theorem Arr.insert_full (a : Arr) (c : Ctx) (i : Nat) (v : Elem) (hfull : a.count = maxArrayElementCount) :
-    ∃ e, a.insert T i v c = .error e := by
+    a.insert T i v c = .error .maxElementCount := by
   unfold Arr.insert
   rw [if_pos hfull]
-  exact ⟨_, rfl⟩
 
 /-- `Arr.insert` rejects an index out of range (array not full) -/
 theorem ArrOk.insert_oob {a : Arr} {c : Ctx} (h : ArrOk T a c.ctr) {i : Nat} (v : Elem)
